@@ -147,17 +147,18 @@ func genWS(cfg Config, emit func(string, bool, []string)) {
 }
 
 type wsExec struct {
-	ws     *statedb.WatchSet
-	chans  []chan struct{}
-	start  time.Time
-	member map[int]bool
-	closed map[int]bool
-	timers []*time.Timer
-	mu     sync.Mutex
+	ws       *statedb.WatchSet
+	chans    []chan struct{}
+	start    time.Time
+	member   map[int]bool
+	closed   map[int]bool
+	closedAt map[int]int
+	timers   []*time.Timer
+	mu       sync.Mutex
 }
 
 func newWSExec() *wsExec {
-	return &wsExec{ws: statedb.NewWatchSet(), start: time.Now(), member: map[int]bool{}, closed: map[int]bool{}}
+	return &wsExec{ws: statedb.NewWatchSet(), start: time.Now(), member: map[int]bool{}, closed: map[int]bool{}, closedAt: map[int]int{}}
 }
 
 func (e *wsExec) Close() {
@@ -194,6 +195,7 @@ func (e *wsExec) Do(o *Out, f []string) string {
 		if !e.closed[i] {
 			close(e.chans[i])
 			e.closed[i] = true
+			e.closedAt[i] = e.nowMs()
 		}
 		e.mu.Unlock()
 		return "ok"
@@ -205,6 +207,7 @@ func (e *wsExec) Do(o *Out, f []string) string {
 			e.mu.Lock()
 			if !e.closed[i] {
 				e.closed[i] = true
+				e.closedAt[i] = e.nowMs()
 				close(e.chans[i])
 			}
 			e.mu.Unlock()
@@ -266,7 +269,26 @@ func (e *wsExec) Do(o *Out, f []string) string {
 		if err != nil && err != ctx.Err() {
 			o.Fail("C20", "wrong-error", nil, fmt.Sprintf("Wait returned %v, context error is %v", err, ctx.Err()))
 		}
-		_ = firstClosed
+		// "waiting at most the settle time to gather further ones": a successful Wait returns no
+		// later than the settle time after the first member closed
+		if err == nil && len(got) > 0 {
+			firstClosed = -1
+			for i := range before {
+				if e.closed[i] {
+					at := e.closedAt[i]
+					if at < t0 {
+						at = t0
+					}
+					if firstClosed < 0 || at < firstClosed {
+						firstClosed = at
+					}
+				}
+			}
+			if firstClosed >= 0 && t1 > firstClosed+settle {
+				o.Fail("C20", "waited-longer-than-settle", map[string]string{"settle": strconv.FormatBool(settle > 0)},
+					fmt.Sprintf("Wait(settle %dms) called at %dms returned at %dms; the first member closed at %dms", settle, t0, t1, firstClosed))
+			}
+		}
 		// the set afterwards: exactly the members that were not returned
 		for i, c := range e.chans {
 			has := e.ws.Has(c)
